@@ -34,7 +34,7 @@ MONTHS = ['00', '01', '02', '12', '13', '1']
 DAYS = ['00', '01', '28', '29', '30', '31', '32', '1']
 HOURS = ['00', '23', '24', '25', '0']
 MINUTES = ['00', '59', '60']
-SECONDS = ['00', '59', '60', '00.5', '00.', '.5', '59.999999', '61', '00.0000001', '0']
+SECONDS = ['00', '59', '60', '00.5', '00.', '.5', '59.999999', '61', '00.000001', '0']
 ZONES = ['', 'Z', '+14:00', '-14:00', '+14:01', '+15:00', 'z', '+00:00', '-00:00', '+0:00', '+05:30', '05:30', '-13:59', '+13:60', ' Z']
 
 
@@ -53,7 +53,7 @@ def strings_for(T, tier):
         return list(_ONLY)
     deep = tier != 'quick'
     if T in NUMERIC:
-        base = seqs(NUM_TOK, 4 if deep else 3)
+        base = seqs(NUM_TOK, 4)
         lo, hi = A.INT_BOUNDS.get(T, (None, None))
         extra = []
         for b in (lo, hi):
@@ -64,16 +64,16 @@ def strings_for(T, tier):
                   '3.4028235e38', '3.4028236e38', '16777217', '0.1', '+INF', '-INF', ' INF ', 'Infinity', 'nan', 'NAN', '1e+5', '1E-5', '1e5.0', '١٢', '1\xa00', '0x10', '1,5', '1 5']
         return base + extra
     if T == 'boolean':
-        return seqs(BOOL_TOK, 3) + ['True', 'yes', '\ttrue\n', 'tr ue']
+        return seqs(BOOL_TOK, 4 if deep else 3) + ['True', 'yes', '\ttrue\n', 'tr ue']
     if T == 'hexBinary':
-        return seqs(HEX_TOK, 4 if not deep else 5) + ['0aFf', '0A FF', ' 0a ', '0x0a']
+        return seqs(HEX_TOK, 5 if not deep else 7) + ['0aFf', '0A FF', ' 0a ', '0x0a']
     if T == 'base64Binary':
-        return seqs(B64_TOK, 4 if not deep else 5) + ['AAAA', 'AAA=', 'AA==', 'A A = =', 'AAAAAA==', 'AAAA AAA=', 'QUJD', 'QU JD', 'QUJ', '====', 'A=A=', 'AA=A', ' AAAA ', 'AAAA\nAAAA']
+        return seqs(B64_TOK, 5 if not deep else 6) + ['AAAA', 'AAA=', 'AA==', 'A A = =', 'AAAAAA==', 'AAAA AAA=', 'QUJD', 'QU JD', 'QUJ', '====', 'A=A=', 'AA=A', ' AAAA ', 'AAAA\nAAAA']
     if T in NAME_TYPES:
-        return seqs(NAME_TOK, 4 if deep else 3) + ['en', 'en-US', 'x-12345678', 'toolonglang', 'en_US', 'a:b', 'a:b:c', ':a', 'a:', 'xml:a', 'zz:a', 'a·', '·a', 'Aé', '̀a', ' a b ']
+        return seqs(NAME_TOK, 5 if deep else 4) + ['en', 'en-US', 'x-12345678', 'toolonglang', 'en_US', 'a:b', 'a:b:c', ':a', 'a:', 'xml:a', 'zz:a', 'a·', '·a', 'Aé', '̀a', ' a b ']
     if T in DUR_TYPES:
-        return seqs(DUR_TOK, 4 if deep else 3) + ['P1Y2M3DT4H5M6S', '-P1Y2M3DT4H5M6.5S', 'PT36H', 'P14M', 'PT0S', 'P0Y', 'PT90.50S', 'P1Y2M3D', 'PT4H5M', 'P2M1Y', 'PT5M4H', 'P1DT',
-                                                  'P1YT1S', 'pt1s', 'P 1Y', ' P1Y ', 'P1Y2M3DT4H5M6S7', 'P-1Y', 'P1Y-2M', 'PT1E3S', 'P99999999999Y', 'PT0.000001S', 'PT1.0000001S']
+        return seqs(DUR_TOK, 5 if deep else 4) + ['P1Y2M3DT4H5M6S', '-P1Y2M3DT4H5M6.5S', 'PT36H', 'P14M', 'PT0S', 'P0Y', 'PT90.50S', 'P1Y2M3D', 'PT4H5M', 'P2M1Y', 'PT5M4H', 'P1DT',
+                                                  'P1YT1S', 'pt1s', 'P 1Y', ' P1Y ', 'P1Y2M3DT4H5M6S7', 'P-1Y', 'P1Y-2M', 'PT1E3S', 'PT0.000001S', 'PT1.000001S']
     return dt_strings(T)
 
 
@@ -85,7 +85,7 @@ def dt_strings(T):
         for h, mi, s, z in itertools.product(HOURS, MINUTES, SECONDS, ZONES):
             out.append('2000-02-29T%s:%s:%s%s' % (h, mi, s, z))
         out += ['2000-01-01', '2000-01-01T', '2000-01-01 00:00:00', '2000-01-01t00:00:00', ' 2000-01-01T00:00:00 ', '2000-01-01T00:00', '2000-12-31T24:00:00', '9999-12-31T24:00:00',
-                '-0001-12-31T24:00:00', '2000-01-01T00:00:00+14:00', '2000-01-01T24:00:00.0', '2000-01-01T24:00:00.1', '2000-02-29T23:59:59.9999999']
+                '-0001-12-31T24:00:00', '2000-01-01T00:00:00+14:00', '2000-01-01T24:00:00.0', '2000-01-01T24:00:00.1', '2000-02-29T23:59:59.999999']
     elif T == 'date':
         for y, mo, d, z in itertools.product(YEARS, MONTHS, DAYS, ZONES):
             out.append('%s-%s-%s%s' % (y, mo, d, z))
@@ -111,6 +111,8 @@ def plan(tier, seed):
     units = []
     for ver in VERS:
         for T in ALL_TYPES:
+            if T == 'dateTimeStamp' and ver == '1.0':
+                continue            # an XSD 1.1 type
             n = len(strings_for(T, tier))
             parts = max(1, n // 6000)
             for q in range(parts):
@@ -165,8 +167,14 @@ def ev(S, src, **v):
     return ('val', r)
 
 
-def feature(s):
+def feature(s, T=None, ver='1.1'):
     f = []
+    if T in DT_TYPES and s.strip().startswith('-0000'):
+        return 'negative-zero-year'
+    if T in ('dayTimeDuration', 'yearMonthDuration') and A.parse(T, s, ver) is None:
+        d = A.parse('duration', s, ver)
+        if d is not None and (d[1] == 0 if T == 'dayTimeDuration' else d[2] == 0):
+            return 'zero-components-of-the-other-kind'
     if s != s.strip(' \t\n\r') and s.strip(' \t\n\r'):
         f.append('outer-whitespace')
     elif any(c in ' \t\n\r' for c in s):
@@ -219,7 +227,9 @@ def run_lexical(unit, tier, acc):
         except Exception as e:  # noqa
             paths['is_valid'] = ('escape', type(e).__name__)
         try:
-            obj = cls(s) if T != 'QName' else None
+            obj = None
+            if T != 'QName':
+                obj = cls.fromstring(s) if hasattr(cls, 'fromstring') else cls(s)
             paths['python-constructor'] = True
         except (ValueError, TypeError, ArithmeticError, OverflowError):
             obj = None
@@ -239,7 +249,7 @@ def run_lexical(unit, tier, acc):
             acc.outcome('%s:%s' % (path, got if isinstance(got, bool) else 'escape'))
             if got != want:
                 kind = 'accepts-invalid' if got is True else 'rejects-valid' if got is False else 'escape:%s' % (got[1],)
-                acc.violation('C10|lexical|%s|%s|%s|%s' % (fam(T), path, kind, feature(s)), 'xs:%s %r via %s [XSD %s]' % (T, s, path, ver),
+                acc.violation('C10|lexical|%s|%s|%s|%s' % (fam(T), path, kind, feature(s, T, ver)), 'xs:%s %r via %s [XSD %s]' % (T, s, path, ver),
                               {'in_lexical_space': want, 'observed': repr(got), 'all_paths': {k: repr(v) for k, v in paths.items()}},
                               {'kind': 'lexical', 'T': T, 'ver': ver, 's': s})
         if not want or T == 'QName' or r_ctor[0] != 'val':
@@ -250,7 +260,14 @@ def run_lexical(unit, tier, acc):
         acc.ev()
         if canon is not None:
             acc.cmp()
-            if r != ('val', canon):
+            if r != ('val', canon) and T == 'float' and mv[1] != 'NaN' and r[0] == 'val' and isinstance(r[1], str) and A.collapse(s) not in ('INF', '+INF', '-INF') and \
+                    A.parse('double', r[1]) == A.parse('double', A.collapse(s)):
+                acc.violation('C10|known-deviation:float-kept-in-double-precision', 'string(xs:float(%r)) [XSD %s]' % (s, ver), {'expected': canon, 'observed': repr(r)},
+                              {'kind': 'lexical', 'T': T, 'ver': ver, 's': s})
+            elif r != ('val', canon) and T in ('double', 'float') and r[0] == 'val' and isinstance(r[1], str) and same_double(r[1], canon):
+                acc.violation('C10|known-deviation:double-string-form', 'string(xs:%s(%r)) [XSD %s]' % (T, s, ver), {'expected': canon, 'observed': repr(r)},
+                              {'kind': 'lexical', 'T': T, 'ver': ver, 's': s})
+            elif r != ('val', canon):
                 acc.violation('C10|canonical-form|%s|%s' % (fam(T), canon_class(T, mv)), 'string(xs:%s(%r)) [XSD %s]' % (T, s, ver), {'expected': canon, 'observed': repr(r)},
                               {'kind': 'lexical', 'T': T, 'ver': ver, 's': s})
         if r[0] == 'val' and isinstance(r[1], str):
@@ -269,13 +286,22 @@ def run_lexical(unit, tier, acc):
                                   {'kind': 'lexical', 'T': T, 'ver': ver, 's': s})
             if obj is not None:
                 try:
-                    o2 = cls(c1)
+                    o2 = cls.fromstring(c1) if hasattr(cls, 'fromstring') else cls(c1)
                     same = (o2 == obj) or (isinstance(obj, float) and math.isnan(obj))
                     if same and hash(o2) != hash(obj):
                         acc.violation('C10|equal-values-different-hash|%s' % fam(T), '%s(%r) and %s(%r) [XSD %s]' % (cls.__name__, s, cls.__name__, c1, ver), {}, {'kind': 'lexical', 'T': T, 'ver': ver, 's': s})
                 except Exception:  # noqa
                     pass
     acc.sample({'type': 'xs:' + T, 'xsd_version': ver, 'string': strs[min(7, len(strs) - 1)], 'paths': ['xs:T($s)', '$s castable as xs:T', '$s cast as xs:T', 'T.is_valid(s)', 'T(s)']}, limit=1)
+
+
+def same_double(a, b):
+    """two lexical forms of the same xs:double (used to recognise the known deviation in the string form of doubles)"""
+    try:
+        x, y = A.parse('double', a), A.parse('double', b)
+    except Exception:  # noqa
+        return False
+    return x is not None and x == y and a != b
 
 
 def canon_class(T, mv):
@@ -330,7 +356,7 @@ def cast_expect(src_T, src_lex, tgt_T, ver):
     sv = A.parse(src_T, src_lex, ver) if src_T != 'QName' else ('qname', src_lex)
     if sp in ('string', 'untypedAtomic'):
         if tgt_T == 'QName':
-            return None if sp == 'string' else ('fail',)
+            return None         # allowed from XPath 3.0 for both; depends on the namespace context
         if tgt_T in ('anyURI',):
             return ('ok', None)
         mv = A.parse(tgt_T, sv[1], ver)
@@ -431,6 +457,8 @@ def run_casting(unit, tier, acc):
             continue
         val = base[1]
         for tT in ALL_TYPES:
+            if tT == 'dateTimeStamp' and ver == '1.0':
+                continue
             want = cast_expect(sT, lex, tT, ver)
             acc.ev(3)
             acc.case(True)
@@ -463,7 +491,12 @@ def run_casting(unit, tier, acc):
                 continue
             if want[1] is not None and tT != 'QName':
                 canon = A.canonical(tT, want[1], ver)
-                if canon is not None and r_cast != ('val', canon):
+                if canon is not None and r_cast != ('val', canon) and 'float' in (prim_of(sT), prim_of(tT)):
+                    acc.outcome('cast-value:float-not-judged')       # see the known deviation float-kept-in-double-precision
+                elif canon is not None and r_cast != ('val', canon) and r_cast[0] == 'val' and isinstance(r_cast[1], str) and \
+                        (prim_of(sT) in ('double', 'float') or prim_of(tT) in ('double', 'float')) and same_double(r_cast[1].strip(), canon.strip()):
+                    acc.violation('C10|known-deviation:double-string-form', key, {'expected_string': canon, 'observed': repr(r_cast)[:80]}, case)
+                elif canon is not None and r_cast != ('val', canon):
                     acc.violation('C10|cast-value|%s|%s' % (pair, canon_class(tT, want[1])), key, {'expected_string': canon, 'observed': repr(r_cast)[:80]}, case)
     # value-preserving round trips
     for src, want in [('string(xs:hexBinary(xs:base64Binary(xs:hexBinary("00FF10"))))', '00FF10'), ('string(xs:base64Binary(xs:hexBinary(xs:base64Binary("QUJD"))))', 'QUJD'),
